@@ -104,6 +104,25 @@ func Extract(pkg *packages.Package, fd *ast.FuncDecl) []Ev {
 	defs := map[types.Object]ast.Expr{}
 	assigned := map[types.Object]int{}
 	ast.Inspect(fd.Body, func(n ast.Node) bool {
+		if inc, ok := n.(*ast.IncDecStmt); ok {
+			if id, ok := inc.X.(*ast.Ident); ok {
+				if obj := info.Uses[id]; obj != nil {
+					assigned[obj]++
+				}
+			}
+			return true
+		}
+		if u, ok := n.(*ast.UnaryExpr); ok && u.Op == token.AND {
+			// a local whose address is taken can change behind the name
+			if id, ok := u.X.(*ast.Ident); ok {
+				if obj := info.Uses[id]; obj != nil {
+					if _, isStruct := obj.Type().Underlying().(*types.Struct); !isStruct {
+						assigned[obj]++
+					}
+				}
+			}
+			return true
+		}
 		as, ok := n.(*ast.AssignStmt)
 		if !ok {
 			return true
@@ -143,6 +162,109 @@ func Extract(pkg *packages.Package, fd *ast.FuncDecl) []Ev {
 		}
 		return e
 	}
+	// deepStr prints an expression with single-definition locals replaced by their defining
+	// expressions at any depth (`uint8(n)` with `n := len(v.Signatures)`)
+	var deepStr func(e ast.Expr, d int) string
+	deepStr = func(e ast.Expr, d int) string {
+		if d > 6 {
+			return exprStr(e)
+		}
+		switch x := e.(type) {
+		case *ast.Ident:
+			if r := resolve(x); r != ast.Expr(x) {
+				return deepStr(r, d+1)
+			}
+			return x.Name
+		case *ast.ParenExpr:
+			return "(" + deepStr(x.X, d+1) + ")"
+		case *ast.CallExpr:
+			var as []string
+			for _, a := range x.Args {
+				as = append(as, deepStr(a, d+1))
+			}
+			return exprStr(x.Fun) + "(" + strings.Join(as, ", ") + ")"
+		case *ast.SelectorExpr:
+			if _, isPkg := info.Uses[identOf(x.X)].(*types.PkgName); isPkg {
+				return exprStr(x)
+			}
+			return deepStr(x.X, d+1) + "." + x.Sel.Name
+		case *ast.IndexExpr:
+			return deepStr(x.X, d+1) + "[" + deepStr(x.Index, d+1) + "]"
+		case *ast.StarExpr:
+			return "*" + deepStr(x.X, d+1)
+		case *ast.UnaryExpr:
+			return x.Op.String() + deepStr(x.X, d+1)
+		case *ast.BinaryExpr:
+			return deepStr(x.X, d+1) + " " + x.Op.String() + " " + deepStr(x.Y, d+1)
+		}
+		return exprStr(e)
+	}
+	// structFields: arg is (a pointer to) a struct made only of fixed-size fields, the way
+	// encoding/binary writes it: field by field, in declaration order, without padding. Returns
+	// the source expression and width of every field, or nil.
+	type fieldSrc struct {
+		src   string
+		width int
+		cval  string
+	}
+	structFields := func(arg ast.Expr) []fieldSrc {
+		t := info.TypeOf(arg)
+		if t == nil {
+			return nil
+		}
+		if pt, ok := t.Underlying().(*types.Pointer); ok {
+			t = pt.Elem()
+		}
+		st, ok := t.Underlying().(*types.Struct)
+		if !ok || st.NumFields() == 0 {
+			return nil
+		}
+		base := arg
+		if u, ok := arg.(*ast.UnaryExpr); ok && u.Op == token.AND {
+			base = u.X
+		}
+		var lit *ast.CompositeLit
+		if cl, ok := resolve(base).(*ast.CompositeLit); ok {
+			lit = cl
+		} else if u, ok := resolve(base).(*ast.UnaryExpr); ok && u.Op == token.AND {
+			if cl, ok := u.X.(*ast.CompositeLit); ok {
+				lit = cl
+			}
+		}
+		var out []fieldSrc
+		for i := 0; i < st.NumFields(); i++ {
+			w := SizeOf(st.Field(i).Type())
+			if w <= 0 {
+				return nil
+			}
+			fs := fieldSrc{src: deepStr(base, 0) + "." + st.Field(i).Name(), width: w}
+			if lit != nil {
+				var el ast.Expr
+				if len(lit.Elts) > 0 {
+					if _, keyed := lit.Elts[0].(*ast.KeyValueExpr); keyed {
+						for _, e := range lit.Elts {
+							kv := e.(*ast.KeyValueExpr)
+							if id, ok := kv.Key.(*ast.Ident); ok && id.Name == st.Field(i).Name() {
+								el = kv.Value
+							}
+						}
+					} else if i < len(lit.Elts) {
+						el = lit.Elts[i]
+					}
+				}
+				if el == nil {
+					fs.src, fs.cval = "0", "0"
+				} else {
+					fs.src = deepStr(el, 0)
+					if tv, ok := info.Types[el]; ok && tv.Value != nil {
+						fs.cval = tv.Value.ExactString()
+					}
+				}
+			}
+			out = append(out, fs)
+		}
+		return out
+	}
 	var out []Ev
 	var stack []ast.Node
 	// the value most recently encoded into a local fixed-size array by binary.<order>.PutUintN
@@ -169,6 +291,7 @@ func Extract(pkg *packages.Package, fd *ast.FuncDecl) []Ev {
 		}
 		full := fn.FullName()
 		ev := Ev{Callee: full, Pos: call.Pos()}
+		var expand []fieldSrc
 		if strings.HasPrefix(full, "(encoding/binary.") && strings.Contains(full, ").PutUint") && len(call.Args) == 2 {
 			if sl, ok := call.Args[0].(*ast.SliceExpr); ok && sl.Low == nil && sl.High == nil {
 				if id, ok := sl.X.(*ast.Ident); ok {
@@ -189,11 +312,12 @@ func Extract(pkg *packages.Package, fd *ast.FuncDecl) []Ev {
 				return true
 			}
 			ev.Kind, ev.Order = "write", exprStr(call.Args[1])
-			ev.Field = exprStr(resolve(call.Args[2]))
+			ev.Field = deepStr(call.Args[2], 0)
 			ev.Width = SizeOf(info.TypeOf(call.Args[2]))
 			if tv, ok := info.Types[call.Args[2]]; ok && tv.Value != nil {
 				ev.ConstVal = tv.Value.ExactString()
 			}
+			expand = structFields(call.Args[2])
 		case full == "(*bytes.Buffer).Write":
 			ev.Kind = "write"
 			arg := resolve(call.Args[0])
@@ -301,10 +425,23 @@ func Extract(pkg *packages.Package, fd *ast.FuncDecl) []Ev {
 				ev.Cond = true
 			}
 		}
+		if len(expand) > 0 {
+			for _, f := range expand {
+				e2 := ev
+				e2.Field, e2.Width, e2.ConstVal = f.src, f.width, f.cval
+				out = append(out, e2)
+			}
+			return true
+		}
 		out = append(out, ev)
 		return true
 	})
 	return out
+}
+
+func identOf(e ast.Expr) *ast.Ident {
+	id, _ := e.(*ast.Ident)
+	return id
 }
 
 func within(child ast.Node, body *ast.BlockStmt) bool { return child == ast.Node(body) }
@@ -322,20 +459,64 @@ func lhsOf(stack []ast.Node, call *ast.CallExpr, i int) string {
 // bufSize describes how a slice variable used as read buffer was sized: "const <k>",
 // "remaining" (reader.Len()), or "expr <text>".
 func bufSize(info *types.Info, fd *ast.FuncDecl, arg ast.Expr) string {
-	id, ok := arg.(*ast.Ident)
-	if !ok {
+	id, isIdent := arg.(*ast.Ident)
+	if _, isSel := arg.(*ast.SelectorExpr); !isIdent && !isSel {
 		return "expr " + exprStr(arg)
 	}
-	obj := info.ObjectOf(id)
+	var obj types.Object
+	if isIdent {
+		obj = info.ObjectOf(id)
+	}
+	// a size kept in a local that is defined once from reader.Len()
+	lenLocal := func(e ast.Expr) bool {
+		sid, ok := e.(*ast.Ident)
+		if !ok {
+			return false
+		}
+		sobj := info.ObjectOf(sid)
+		ndef, fromLen := 0, false
+		ast.Inspect(fd.Body, func(n ast.Node) bool {
+			as, ok := n.(*ast.AssignStmt)
+			if !ok {
+				return true
+			}
+			for i, l := range as.Lhs {
+				li, ok := l.(*ast.Ident)
+				if !ok || info.ObjectOf(li) != sobj {
+					continue
+				}
+				ndef++
+				if len(as.Lhs) == len(as.Rhs) {
+					if c2, ok := as.Rhs[i].(*ast.CallExpr); ok {
+						if f2, _ := typeutil.Callee(info, c2).(*types.Func); f2 != nil && f2.FullName() == "(*bytes.Reader).Len" {
+							fromLen = true
+						}
+					}
+				}
+			}
+			return true
+		})
+		return ndef == 1 && fromLen
+	}
 	res := "unknown"
+	if !isIdent {
+		res = "expr " + exprStr(arg)
+	}
 	ast.Inspect(fd.Body, func(n ast.Node) bool {
 		as, ok := n.(*ast.AssignStmt)
 		if !ok {
 			return true
 		}
 		for i, l := range as.Lhs {
-			li, ok := l.(*ast.Ident)
-			if !ok || info.ObjectOf(li) != obj || i >= len(as.Rhs) {
+			if i >= len(as.Rhs) {
+				continue
+			}
+			if isIdent {
+				li, ok := l.(*ast.Ident)
+				if !ok || info.ObjectOf(li) != obj {
+					continue
+				}
+			} else if exprStr(l) != exprStr(arg) {
 				continue
 			}
 			mk, ok := as.Rhs[i].(*ast.CallExpr)
@@ -352,6 +533,8 @@ func bufSize(info *types.Info, fd *ast.FuncDecl, arg ast.Expr) string {
 					} else {
 						res = "expr " + exprStr(sz)
 					}
+				} else if lenLocal(sz) {
+					res = "remaining"
 				} else {
 					res = "expr " + exprStr(sz)
 				}
@@ -378,4 +561,32 @@ func Offsets(evs []Ev) []int {
 		}
 	}
 	return out
+}
+
+// BinarySize is the number of bytes encoding/binary writes for a value of type t (basic
+// fixed-width types, arrays and structs of them, and pointers to such data), or -1.
+func BinarySize(t types.Type) int {
+	switch u := t.Underlying().(type) {
+	case *types.Pointer:
+		return BinarySize(u.Elem())
+	case *types.Struct:
+		n := 0
+		for i := 0; i < u.NumFields(); i++ {
+			w := BinarySize(u.Field(i).Type())
+			if w <= 0 {
+				return -1
+			}
+			n += w
+		}
+		if n == 0 {
+			return -1
+		}
+		return n
+	case *types.Array:
+		if w := BinarySize(u.Elem()); w > 0 {
+			return w * int(u.Len())
+		}
+		return -1
+	}
+	return SizeOf(t)
 }
